@@ -4,6 +4,7 @@
                   strictly inside the non-mate range  (-win_in(MAX_DEPTH), win_in(MAX_DEPTH)) = (-639960, 639960)
   Cache transparency (pawn hash table, HashMap::clear) and the general evaluator are NOT decided by this check yet.
 """
+import os
 from runner import Job, tu
 from props.poscommon import SPEC, POST, ND, CANARY
 from props.C11 import loops_unwind
@@ -65,11 +66,11 @@ def jobs(tier, seed):
              '  for (int c = 0; c < 2; c++) __CPROVER_assume((P1._by_color_bb[c] & P1._by_piece_kind_bb[1]) == G_PAWNS[c] && (P2._by_color_bb[c] & P2._by_piece_kind_bb[1]) == G_PAWNS[c]);\n'
              '  struct Score a = %s(&S1, &P1), b = %s(&S2, &P2);\n' % (fn, fn) +
              '  __CPROVER_assert(a.mg == b.mg && a.eg == b.eg, "pawn score of one side is a function of the pawn structure alone (same pawn lists and pawn sets => same score)");' + CANARY + '}\n')
-        # quick tier: the white instance without the canary re-run (about 8 minutes); thorough: both colours with canary
+        # thorough tier (8-17 minutes per colour with CaDiCaL, the only back end that finishes): too long and too variable for the quick command
         out.append(Job('pawn_cache/depends_on_pawns_only_' + ('white', 'black')[side], PTUS14, [fn], h, 'h_pp', timeout=2400,
                        contracts={PCK: c_pck, 'op_mul': c_m1, 'Score__op_mul': c_m2}, nobody=[PCK, 'op_mul', 'Score__op_mul'], stubs=[PCK, 'op_mul', 'Score__op_mul'],
                        backend='cadical', drop_flags=['--signed-overflow-check'], gb=3,
-                       canary=(side == 1 or tier == 'thorough'), tier=('quick' if side == 0 else 'thorough'),
+                       tier='thorough',
                        pre_text='uint64_t G_PAWNS[2];\nint64_t __CPROVER_uninterpreted_mul64(int64_t, int64_t);\n',
                        unwindset=loops_unwind([(fn, 9)]), route='closed-by-complete-unwinding(9): at most 8 pawns of a colour',
                        note='two-run obligation: score_pawns_for_side<%s> gives equal results on any two positions (and scorer states) with the same pawn structure - the quantity cached under the pawn key depends only on what the key covers (Score multiplications uninterpreted, hence no overflow obligations in this group)' % ('WHITE', 'BLACK')[side]))
